@@ -164,7 +164,8 @@ class OpsMixin:
                 if b == 0:
                     raise PyExc(ZeroDivisionError)
                 if b > 0:
-                    if opn == "Mod" and getattr(self, "nl_uf", False) and not z3.is_int_value(z3.simplify(ta)) \
+                    if opn == "Mod" and getattr(self, "nl_uf", False) and z3.is_app(ta) \
+                            and ta.decl().kind() == z3.Z3_OP_UNINTERPRETED \
                             and self.p.implied(z3.And(ta >= 0, ta < b)):
                         return self.mkint(ta)          # already reduced
                     return self.mkint(ta / tb if opn == "FloorDiv" else ta % tb)
